@@ -98,7 +98,8 @@ CHECKS["C04"] = dict(
          "only the two lifetime ends may emit it; mock destruction visits every expectation (report, then unlink). "
          "reported and unlinked are absorbing, hence at most one end-of-life report per expectation over every history. "
          "The whole step protocol of the accept path is a premise of this property and is decided by this check too: forbidden test first and unconditional, sequence check before the count, exactly one count, saturation test after the count, the expectation has left its list and its sequences before any user code runs. "
-         "The ALLOW_CALL / FORBID_CALL macro families (C++14 and _V spellings, NAMED and unnamed, with and without modifiers) are token-equal to REQUIRE_CALL with TIMES(0, unbounded) / TIMES(0).",
+         "The ALLOW_CALL / FORBID_CALL macro families (C++14 and _V spellings, NAMED and unnamed, with and without modifiers) are token-equal to REQUIRE_CALL with TIMES(0, unbounded) / TIMES(0). "
+         "The limit plumbing of every TIMES / RT_TIMES spelling (C03.b) is a premise of 'below its lower bound' and is decided by this check too.",
     design_ref="DESIGN.md section 4, C04", note="Not decided: message wording.")
 CHECKS["C08"] = dict(
     technique="typestate automata over the dispatch function and over every function that evaluates WITH clauses "
@@ -126,7 +127,8 @@ CHECKS["C01"] = dict(
          "expired expectations are unlinked on every path; every TIMES / RT_TIMES form sets the limits it says "
          "(every arity of the multiplicity constructors, default arguments included). "
          "The whole step protocol of the accept path is a premise of this property and is decided by this check too: forbidden test first and unconditional, sequence check before the count, exactly one count, saturation test after the count, the expectation has left its list and its sequences before any user code runs. "
-         "The list order (newest first) survives the move of a movable mock: the list's move constructor is interpreted over every canonical ring shape (C14.g).",
+         "The list order (newest first) survives the move of a movable mock: the list's move constructor is interpreted over every canonical ring shape (C14.g). "
+         "The parameter fold is also decided at the C++11 level (the library's own make_index_sequence): the indices asked are those of the parameter tuple.",
     design_ref="DESIGN.md section 4, C01",
     note="The 'iff' composes C02 (which candidate), C05 (sequence permission), C07 (forbidden); the lifting from "
          "'per call' to 'every history' is the list invariant written in DESIGN.md.")
@@ -139,7 +141,8 @@ CHECKS["C02"] = dict(
          "returns and forwards its parameters in order (every MAKE_MOCK in the analysed units); signatures are "
          "isolated by type; cost/order tables are those of C05; the list primitives and the move of a whole list keep "
          "the element order (SHAPE). "
-         "The step protocol of both sequence-step consumers (a matched call, a watched destruction) is decided by this check too: what a step that happened leaves pending is what later candidates are charged.",
+         "The step protocol of both sequence-step consumers (a matched call, a watched destruction) is decided by this check too: what a step that happened leaves pending is what later candidates are charged. "
+         "IN_SEQUENCE keeps the limits set so far (C03.b.carry, several limit shapes): 'live and unsaturated' is read off them.",
     design_ref="DESIGN.md section 4, C02",
     note="Global optimality of the selection is the loop invariant written in DESIGN.md over the checked step.")
 CHECKS["C03"] = dict(
@@ -165,7 +168,8 @@ CHECKS["C06"] = dict(
          "sequences on saturation, test saturation only after the call / destruction has been counted, and retire "
          "predecessors only together with counting; a released node unlinks on every path. "
          "The whole step protocol of the accept path is a premise of this property and is decided by this check too: forbidden test first and unconditional, sequence check before the count, exactly one count, saturation test after the count, the expectation has left its list and its sequences before any user code runs. "
-         "The teardown of one sequence takes the pending expectations out of that sequence only (a handler-level retire there is reported).",
+         "The teardown of one sequence takes the pending expectations out of that sequence only (a handler-level retire there is reported). "
+         "IN_SEQUENCE keeps the limits set so far (C03.b.carry): 'reached its lower bound' is read off them.",
     design_ref="DESIGN.md section 4, C06", note="The query's lock is C12.")
 CHECKS["C07"] = dict(
     technique="preprocessor token equality of the FORBID macro family, protocol automaton, constant evaluation of "
